@@ -82,6 +82,9 @@ class TransformDMA_contract:
         # the same 4-level nest with the loop order fixed (bounds strictly decreasing in (dim, depth) order): 1/24 of the paths
         dict(src="tsl", dst="tsl", rank=2, depth=2, bits=32, lcb="single_sorted")]
     quick = lambda sh: sh["rank"] * sh["depth"] <= 2 or (sh.get("lcb") == "single" and sh["rank"] == 1) or sh.get("lcb") == "single_sorted"
+    # the unconstrained 2 x 2 shape (4 symbolic levels per side, every ordering and every common block) does not finish
+    # within an hour on 16 cores: NOT covered; its deep-nest sub-cases are the `lcb` shapes
+    thorough = lambda sh: not (sh["rank"] == 2 and sh["depth"] == 2 and "lcb" not in sh)
     native = False
     total = True
     permissive = True
